@@ -134,7 +134,14 @@ func cmdPatternTraces(args []string) {
 		}}
 		if *bystander {
 			// its salience lies between, above or below the two: in whichever cycle it fires, what was remembered stays as it is
-			prog.Rules = append(prog.Rules, &Rule{Name: "T", HasSal: true, Sal: []int64{-1, 0, 1, 2}[r.Intn(4)], When: &Bin{Op: "==", L: P("F.Z"), R: P("F.Z")},
+			// (half of the bystanders become satisfied only once the selector is 1 - the value for which the failing atom fails - and
+			//  outrank the other two: they fire in exactly the cycle in which the reader's condition first fails)
+			when := Expr(&Bin{Op: "==", L: P("F.Z"), R: P("F.Z")})
+			sal := []int64{-1, 0, 1, 2}[r.Intn(4)]
+			if r.Intn(2) == 0 {
+				when, sal = &Bin{Op: "==", L: P("F.I"), R: CI(1)}, 5
+			}
+			prog.Rules = append(prog.Rules, &Rule{Name: "T", HasSal: true, Sal: sal, When: when,
 				Then: []*Action{{Kind: "set", Name: "Mark", E: CI(3), Once: true}, {Kind: "retract", Name: "T"}}})
 		}
 		rules, _ := json.Marshal(prog.JS())
